@@ -36,6 +36,7 @@ def REQUIRED(tier):  # noqa: N802
             "ann_architectures[py]": 100, "system_equation_calls": 300,
             "min_ann_calls": 100, "inputs_unmodified_checks": 3000,
             "lgpc_zero_denominator_judged": 10,
+            "min_ann_calls_near_the_interval_border": 2000,
             "calls_on_exactly_cancelling_inputs": 1000}
 
 
@@ -384,6 +385,48 @@ def run_shard(ctx, args):
                     ctx.count("calls_on_exactly_cancelling_inputs")
                     judge_family_call(ctx, fam, ctrl, dims, idx, sv,
                                       float(rng.choice(SPECIAL)), pv)
+    # minimising networks whose hidden neurons switch (arctan argument 0)
+    # close to the ends of the search interval [-1000, 1000] or to its
+    # centre: the minimiser's bracketing runs into the interval's border
+    if not (eng == "py"):
+        for dims in (2, 3):
+            lst = controllers_for(dims)["min_anns"]
+            for idx, ctrl in enumerate(lst):
+                nodes = idx + 1
+                for _ in range(60 if args.get("c13_slice") else 400):
+                    sv = rng.uniform(-30, 30, dims)
+                    pv = rng.uniform(-32, 32, ctrl.param_dims)
+                    for k in range(nodes):
+                        if nodes == 1:
+                            # one neuron: state weights and the weight of the
+                            # minimised input only
+                            x0 = float(rng.choice([-1000, 1000, 990, 0]))
+                            xw = float(rng.choice([-1, 1])) * float(
+                                10 ** rng.uniform(-2.5, 0))
+                            w = (-xw * x0) * sv / float(sv @ sv)
+                            if np.max(np.abs(w)) <= 32:
+                                pv[0:dims] = w
+                                pv[dims] = xw
+                            continue
+                        o = k * (dims + 2)
+                        x0 = float(rng.choice([-1000, -995, -990, 990, 995,
+                                               1000, 1005, 1010, 0, 985]))
+                        x0 += float(rng.uniform(-6, 6))
+                        xw = float(rng.choice([-1, 1])) * float(
+                            10 ** rng.uniform(-2.5, 0))
+                        bias = float(rng.uniform(-32, 32))
+                        hl = -xw * x0 - bias
+                        w = hl * sv / float(sv @ sv)
+                        if np.max(np.abs(w)) > 32:
+                            continue
+                        pv[o:o + dims] = w
+                        if rng.integers(2):
+                            pv[o + dims], pv[o + dims + 1] = xw, bias
+                        else:
+                            pv[o + dims], pv[o + dims + 1] = bias, xw
+                    ctx.count("min_ann_calls_near_the_interval_border")
+                    judge_family_call(ctx, "min_anns", ctrl, dims, idx, sv,
+                                      0.5, pv)
     for a in range(args["archs"]):
         sd, cd, layers = random_arch(rng)
         ctrl = make_ann(sd, cd, list(layers))
